@@ -4,10 +4,28 @@
 import ProphyModel.Properties.Tables
 import ProphyModel.Lemmas.Statics
 import ProphyModel.PLayout
+import ProphyModel.Properties.DocExamples
 namespace Prophy.C04
 open Prophy
 
 /-- the Python runtime's `_ALIGNMENT` is the documented alignment, for every type -/
 theorem C04_py_alignment (t : Ty) : (Py.stTy t).align = Spec.alignTy t := Py.stTy_align t
+
+/-- `_SIZE` of every generated class of a fixed type (any nesting of structs, unions, optionals,
+    fixed and limited arrays, any field order) is the documented static size: the padding loop of
+    struct_generator.add_attributes (pad after each field up to the next field's alignment)
+    reaches exactly the offset the document's rule (pad before each field; composite size is a
+    multiple of its alignment; optionals are not) assigns -/
+theorem C04_py_size_fixed (t : Ty) (h : Spec.fixedTy t = true) : (Py.stTy t).size = Spec.sizeTy t :=
+  Py.stTy_size_fixed t h
+
+/-- a fixed type is never classified dynamic by the documented rules -/
+theorem C04_fixed_not_dynamic (t : Ty) (h : Spec.fixedTy t = true) : Spec.dynTy t = false :=
+  Spec.dynTy_of_fixed t h
+
+/-- non-vacuity: the `Nested`/`X` struct of encoding.rst "Composite padding" is fixed, its size is 32 -/
+example : Spec.fixedTy DocExamples.Nested3 = true ∧ (Py.stTy (.struct "X" [DocExamples.plain "x" DocExamples.u64,
+    DocExamples.plain "y" DocExamples.u32, DocExamples.plain "z" DocExamples.u8, DocExamples.plain "n" DocExamples.Nested3])).size = 32 := by
+  decide
 
 end Prophy.C04
